@@ -181,6 +181,7 @@ class Facts:
         self.functions = data["functions"]
         self.classes = data["classes"]
         self.enums = data["enums"]
+        self.globals = data.get("globals", [])
         self.errors = data.get("errors", 0)
         self.by_qname = {}
         for fn in self.functions:
